@@ -7,7 +7,7 @@
    [read_row fixed es row] the trace read path (OutputQuery) on a stored row.
    Accepted spans have 16-byte trace ids and 8-byte span ids (onSpan rejects every other width): part of [row_of]. *)
 From Coq Require Import List ZArith NArith Bool String Ascii Permutation.
-From Qryn Require Import model.Spans model.SpansChunk model.SpansWire model.SpansStore model.SpansJson model.SpansWireX model.SpansWireY proofs.SpansWireXProofs proofs.SpansWireYProofs proofs.SpansProofs proofs.SpansChunkProofs
+From Qryn Require Import model.Spans model.SpansChunk model.SpansWire model.SpansStore model.SpansJson model.SpansWireX model.SpansWireY model.SpansZone proofs.SpansZoneProofs proofs.SpansWireXProofs proofs.SpansWireYProofs proofs.SpansProofs proofs.SpansChunkProofs
   proofs.SpansTimeProofs proofs.SpansWireProofs proofs.SpansStoreProofs proofs.SpansJsonProofs proofs.SpansNumProofs.
 Import ListNotations.
 Open Scope Z_scope.
@@ -352,3 +352,38 @@ Theorem stored_strings_are_utf8 : forall b rows, decode fixed (InOtlp b) = Some 
   forall sr p, In sr rows -> t_payload (fst sr) = POtlp p -> ospan_utf8 p = true.
 Proof. exact stored_strings_are_utf8_l. Qed.
 Print Assumptions stored_strings_are_utf8.
+
+(* ---- the zone of the writer process.  The one time.Time of the span write path is the MDate of a tag-index row,
+   time.Unix(timestampNs/1000000000, 0).UTC(), which ch-go's ColDate.Append turns into (unix seconds + the value's zone offset) / 86400.
+   [decode_in_zone false local] is the write path in a process whose zone is [local] (any Location: an offset per instant);
+   [span_date true] is the expression without .UTC() (seeded change C06-f, the writer before 71ffd5d): the writer's LOCAL calendar day.
+   For every zone the tag rows of an accepted request are, cell for cell, the rows of a writer running in UTC ... *)
+Theorem tag_rows_same_in_every_zone : forall (local : location) inp rows ps,
+  decode fixed inp = Some rows -> pushed_of inp = Some ps -> decode_in_zone false local fixed inp = decode fixed inp.
+Proof. exact decode_zone_free. Qed.
+Print Assumptions tag_rows_same_in_every_zone.
+
+(* ... so tag_rows_of_span holds in every zone: every tag row bears its span's ids, start time, duration and the day [date_of] of
+   that start time ... *)
+Theorem tag_rows_of_span_in_every_zone : forall (local : location) inp rows ps,
+  decode fixed inp = Some rows -> pushed_of inp = Some ps ->
+  decode_in_zone false local fixed inp = Some (redate (span_date false local) rows) /\
+  Forall2 tags_of ps (map snd (redate (span_date false local) rows)).
+Proof. exact tag_rows_any_zone. Qed.
+Print Assumptions tag_rows_of_span_in_every_zone.
+
+(* ... and that day is the UTC day of the row's timestamp_ns (until 2149, where the UInt16 Date ends): it lies between the days of the
+   ends of every search window that contains the span's start, which is what every reader planner restricts [date] to. *)
+Theorem tag_date_is_utc_day : forall ts, 0 <= ts < 65536 * ns_per_day -> date_of ts = utc_day ts.
+Proof. exact date_of_utc_day. Qed.
+Print Assumptions tag_date_is_utc_day.
+
+Theorem tag_date_inside_search_window : forall from ts to,
+  0 <= from -> from <= ts -> ts <= to -> to < 65536 * ns_per_day -> utc_day from <= date_of ts <= utc_day to.
+Proof. exact date_in_window. Qed.
+Print Assumptions tag_date_inside_search_window.
+
+(* the start time of every pushed span is an int64 (what onSpan's expression is applied to) *)
+Theorem pushed_times_are_int64 : forall inp ps, pushed_of inp = Some ps -> Forall (fun p => in_int64 (p_ts p) = true) ps.
+Proof. exact pushed_ts_int64. Qed.
+Print Assumptions pushed_times_are_int64.
